@@ -519,11 +519,67 @@ def _dense_ball_family(seed):
                   expect=("pair-within-cone", "no-admissible-pair-left-over"), min_outcomes=1)
 
 
+def _large_sheets_family(tier, seed):
+    """Two jittered lattice sheets with up to 300 points per surface (the statement's 600 points): every per-surface
+    size around the powers of two a batched / blocked query would use, three labelling orders, both directions."""
+    rs = np.random.RandomState(2077 + seed)
+    NMAX = 307
+    ij = np.array([[i % 20, i // 20] for i in range(NMAX)], dtype=float)
+    lower = np.column_stack([ij * 2.0 + rs.uniform(-0.1, 0.1, (NMAX, 2)), rs.uniform(-0.1, 0.1, NMAX)])
+    upper = np.column_stack([ij * 2.0 + rs.uniform(-0.1, 0.1, (NMAX, 2)), 3.0 + rs.uniform(-0.25, 0.25, NMAX)])
+    # the dense variant: lattice spacing 1, so that with a wide cone every source has several admissible targets and
+    # sources compete for them (range 3.6 keeps the ball below 25 points)
+    lower_d = np.column_stack([ij + rs.uniform(-0.15, 0.15, (NMAX, 2)), rs.uniform(-0.1, 0.1, NMAX)])
+    upper_d = np.column_stack([ij + rs.uniform(-0.3, 0.3, (NMAX, 2)), 3.0 + rs.uniform(-0.25, 0.25, NMAX)])
+    def normals(sign):
+        v = np.column_stack([rs.normal(0, 0.02, NMAX), rs.normal(0, 0.02, NMAX), np.full(NMAX, float(sign))])
+        return v / np.linalg.norm(v, axis=1, keepdims=True)
+    n_lo, n_up = normals(+1), normals(-1)
+    if tier == "quick":
+        sizes = [10, 40, 100, 127, 128, 129, 200] + list(range(250, 263)) + [280, 300]
+    else:
+        sizes = list(range(10, 301))
+
+    def execute(case, obs):
+        n, order, direction, (alpha, dense) = case
+        lo, up, rng = (lower_d, upper_d, 3.6) if dense else (lower, upper, 5.0)
+        n1, n2 = n, n + 7
+        if order == "surface1-first":
+            lab = [1] * n1 + [2] * n2
+        elif order == "surface2-first":
+            lab = [2] * n2 + [1] * n1
+        else:
+            lab = [1, 2] * n1 + [2] * (n2 - n1)
+        pts, nrm, k = [], [], {1: 0, 2: 0}
+        for s in lab:
+            pts.append((lo if s == 1 else up)[k[s]])
+            nrm.append((n_lo if s == 1 else n_up)[k[s]])
+            k[s] += 1
+        pts, nrm, lab = np.array(pts), np.array(nrm), np.array(lab)
+        m1, m2 = lab == 1, lab == 2
+        src = np.flatnonzero(m1 if direction == "1to2" else m2).tolist()
+        tgt = np.flatnonzero(m2 if direction == "1to2" else m1).tolist()
+        res = call_cpu(obs, pts, nrm, m1, m2, 1.0, rng, alpha, direction)
+        obs.nontrivial = True
+        judge(obs, res, pts, nrm, src, tgt, rng, alpha, 1.0, cls="more-than-256-points-per-surface" if n > 249 else "")
+        out = outcome_of(res, src)
+        if not dense:
+            obs.check(len(out) >= n1 - 2, "measure_thickness_cpu", "lattice-partners-found", f"{len(out)} pairs for {n1} facing lattice points", "")
+        obs.outcome = (n, len(out), h64(repr(out)))
+
+    from ..space import Product as _P
+    from ..engine import h64
+    return Family("large-sheets", _P(sizes, ["surface1-first", "surface2-first", "interleaved"], ["1to2", "2to1"], [(10.0, False), (25.0, False), (25.0, True)]), execute,
+                  describe=lambda c: {"points_surface1": c[0], "points_surface2": c[0] + 7, "labelling": c[1], "direction": c[2], "max_angle": c[3][0], "lattice": "spacing 1, range 3.6" if c[3][1] else "spacing 2, range 5"},
+                  expect=("pair-within-cone", "no-admissible-pair-left-over", "pairing-is-greedy-by-distance"), min_outcomes=1)
+
+
 def families(tier, seed):
     pal, fams = make_families(tier, seed)
     from ..engine import with_array_layouts
     # points / normals handed over Fortran-ordered or as strided views: the pairing family at one cone angle, one unit setting
     fams.append(_dense_ball_family(seed))
+    fams.append(_large_sheets_family(tier, seed))
     fams.append(with_array_layouts(fams[0], select=lambda c: c[2] == 15.0 and tuple(c[3]) == (0, 0),
                                    expect=("pair-within-range", "pair-within-cone", "no-target-used-twice")))
     return fams
